@@ -115,6 +115,13 @@ def with_ctx(entries, over):
 GROUPS["bvf_iarray"] = dict(name="bvf_iarray", prelude=lambda ctx: BVF_PRELUDE + iarray_prelude(ctx),
     items=lambda ctx: BVF_BASE + int_impl_j(ctx) + stub(BVF_CORE) + slice_ia() + with_ctx(verify(["bvf.int_len", "bvf.get_int"]), YJ))
 
+def iarray_prelude_d(ctx):
+    return ["iarray.rs"] + ([word_j()] if ctx["J"] != "u64" else []) + [("chunk.rs", {"Y": "_{J}" if ctx["J"] != "u64" else ""})]
+def yj_d(ctx):
+    return {"Y": "_{J}" if ctx["J"] != "u64" else ""}
+GROUPS["bvd_iarray"] = dict(name="bvd_iarray", features="#![feature(allocator_api)]", prelude=lambda ctx: BVD_PRELUDE + iarray_prelude_d(ctx),
+    items=lambda ctx: BVD_BASE + int_impl_j(ctx) + stub(BVD_CORE) + slice_ia("stub", yj_d(ctx)) + with_ctx(verify(["bvd.int_len", "bvd.get_int"]), yj_d(ctx)))
+
 from units import INT_BITS
 
 def pair(i, j, **kw):
@@ -171,6 +178,16 @@ GROUPS["bvf_arith"] = dict(name="bvf_arith",
     prelude=lambda ctx: WORD_PRELUDE + ["conv_std.rs"] + VALUE_PRELUDE + ["bvf.rs", "bvf_val.rs"] + rhs_bvf_prelude(ctx) + ["bvf_arith.rs"],
     items=lambda ctx: BVF_BASE + rhs_bvf_items(ctx) + stub(BVF_CORE) + verify(["bvf.addsub_bvf"]))
 
+GROUPS["bvf_conv_bvf"] = dict(name="bvf_conv_bvf", prelude=lambda ctx: BVF_PRELUDE + rhs_bvf_prelude(ctx),
+    items=lambda ctx: BVF_BASE + rhs_bvf_items(ctx) + stub(BVF_CORE) + verify(["bvf.try_from_bvf"]))
+
+def src_bvf_prelude(ctx):
+    """vocabulary of a Bvf<J,_> SOURCE inside a Bvd (u64) file"""
+    return (["bvf.rs"] if ctx["J"] == "u64" else []) + rhs_bvf_prelude(ctx)
+GROUPS["bvd_conv_bvf"] = dict(name="bvd_conv_bvf", features="#![feature(allocator_api)]",
+    prelude=lambda ctx: BVD_PRELUDE + src_bvf_prelude(ctx),
+    items=lambda ctx: BVD_BASE + [("decl", "decl.Bvf")] + rhs_bvf_items(ctx) + [("stub", "bvf.len", {"I": "{J}", "X": "{XJ}"})] + stub(BVD_CORE) + verify(["bvd.from_bvf"]))
+
 def xd(ctx):
     """suffix of the u64 word vocabulary used by a Bvd operand inside a Bvf<I,_> file"""
     return "" if ctx["I"] == "u64" else "_u64"
@@ -199,6 +216,10 @@ def rhs_bvd_items(ctx):
 GROUPS["bvf_bitops_bvd"] = dict(name="bvf_bitops_bvd", features="#![feature(allocator_api)]",
     prelude=lambda ctx: BVF_PRELUDE + rhs_bvd_prelude(ctx),
     items=lambda ctx: BVF_BASE + rhs_bvd_items(ctx) + stub(BVF_CORE) + verify(["bvf.binop_bvd"]))
+
+GROUPS["bvf_conv_bvd"] = dict(name="bvf_conv_bvd", features="#![feature(allocator_api)]",
+    prelude=lambda ctx: BVF_PRELUDE + rhs_bvd_prelude(ctx),
+    items=lambda ctx: BVF_BASE + rhs_bvd_items(ctx) + [("stub", "bvd.len", {"X": "{XD}"})] + stub(BVF_CORE) + verify(["bvf.try_from_bvd"]))
 
 GROUPS["bvd_bitops"] = G("bvd_bitops", BVD_PRELUDE, BVD_BASE + stub(BVD_CORE) + verify(["bvd.binop_bvd"]))
 GROUPS["bvd_bitops"]["features"] = "#![feature(allocator_api)]"
@@ -333,6 +354,30 @@ PROPS["C01"] = {
     "thorough": [("bvf_arith", pair(i, j, **ARITH[o])) for i in W4 for j in W4 for o in ("add", "sub")] + jobs("int_prims", W4),
 }
 
+def dctx(i, **kw):
+    """job ctx for an operation on Bvf<I,..> with a Bvd operand/source (u64 words, vocabulary suffix XD)"""
+    c = {"I": i, "XD": "" if i == "u64" else "_u64"}
+    c.update(kw)
+    return c
+PQ = [("u64", "u64"), ("u64", "u8"), ("u8", "u64")]
+PT = [(i, j) for i in W4 for j in W4]
+def iarray_jobs(pairs, dj):
+    """the chunk readers every mixed-word-size unit relies on: Bvf<I,_> read as J chunks, Bvd read as J chunks"""
+    return [("bvf_iarray", {"I": i, "J": j}) for (i, j) in pairs] + [("bvd_iarray", {"I": "u64", "J": j}) for j in dj]
+IA_Q, IA_T = iarray_jobs(PQ, WQ), iarray_jobs(PT, W4)
+CONV_Q = [("bvf_conv_bvf", pair(i, j)) for (i, j) in PQ] + [("bvd_conv_bvf", pair("u64", j)) for j in WQ] + [("bvf_conv_bvd", dctx(i)) for i in WQ]
+CONV_T = [("bvf_conv_bvf", pair(i, j)) for (i, j) in PT] + [("bvd_conv_bvf", pair("u64", j)) for j in W4] + [("bvf_conv_bvd", dctx(i)) for i in W4]
+PROPS["C12"] = {"quick": CONV_Q + IA_Q, "thorough": CONV_T + IA_T}
+for _p in ("C01", "C04", "C09"):
+    PROPS[_p]["quick"] += IA_Q
+    PROPS[_p]["thorough"] += IA_T
+PROPS["C04"]["quick"] += [("bvf_bitops_bvd", dctx(i, **BITOPS[o])) for i in WQ for o in ("and", "or", "xor")]
+PROPS["C04"]["thorough"] += [("bvf_bitops_bvd", dctx(i, **BITOPS[o])) for i in W4 for o in ("and", "or", "xor")]
+PROPS["C19"]["quick"] += [("bvf_conv_bvf", pair("u8", "u64")), ("bvf_conv_bvd", dctx("u8"))]
+PROPS["C19"]["thorough"] += CONV_T
+PROPS["C18"]["quick"] += [("bvd_conv_bvf", pair("u64", "u64"))]
+PROPS["C18"]["thorough"] += [("bvd_conv_bvf", pair("u64", j)) for j in W4]
+
 BVD_ARITH_JOBS = [("bvd_arith", dict(U64, **ARITH_D[o])) for o in ("add", "sub")]
 PROPS["C01"]["quick"] += BVD_ARITH_JOBS
 PROPS["C01"]["thorough"] += BVD_ARITH_JOBS
@@ -416,7 +461,12 @@ MANIFEST_TEXT["C09"] = dict(
     note=("Covered so far by proof: Bvf vs Bvf (u8..u64 words). Not yet under contract: Bvd/Bv comparisons, the delegating mixed-type impls, Ord::cmp (covered by the second engine only). " + TRUST_NOTE))
 dyn_only("C10", "a recording Hasher: equal values (same and different lengths, inline vs heap, spare capacity) must feed identical bytes.", "Hash units (uninterpreted hasher feed model prototyped) not yet woven; D8 was found and fixed.")
 dyn_only("C11", "TryFrom/From between the six native integer types and Bvf/Bvd/Bv in both directions, Bit conversions, slice conversions, against the documented length/value/error rules.", "Conversion units not yet written; D5 was found and fixed.")
-dyn_only("C12", "all From/TryFrom conversions between Bvf word sizes, Bvd and Bv (length, bits, NotEnoughCapacity exactly when too long), new/into_inner round trip.", "Conversion units not yet written (IArray get_int units are verified).")
+MANIFEST_TEXT["C12"] = dict(
+    text=("Proof: TryFrom<&Bvf<I1,N1>> for Bvf<I2,N2> (any two word sizes), TryFrom<&Bvd> for Bvf<I,N> and From<&Bvf<I,N>> for Bvd are verified against the contract "
+          "`Err(NotEnoughCapacity) exactly when the source is LONGER than the target capacity (whatever its value); otherwise Ok with the same length, the same bit at every index below len, "
+          "storage beyond len zero (wf), and for Bvd exactly ceil(len/64) words`, on top of the verified chunk readers IArray::get_int/int_len of Bvf and Bvd (every word-size pair)." + DYN_NOTE),
+    note=("Not yet under contract (second engine only): the by-value forms (forwarders), conversions from/to Bv, From<&[I]>, new/into_inner round trip (new/into_inner themselves are verified, see C07). "
+          "The slice-level get_int (unsafe align_to / word-combining loop in utils.rs) is a trusted contract (T2). " + TRUST_NOTE))
 dyn_only("C13", "to_vec/write/from_bytes/read for both endiannesses incl. surplus bits, short input, capacity errors and round trips.", "to_vec/read units not yet written; from_bytes loops are outside Verus (iterator adapters); D3 was found and fixed.")
 dyn_only("C14", "Display/Binary/Octal/LowerHex/UpperHex under 15 format specifications against Rust's formatting of the u128 value.", "Formatter units (pad_integral model) not yet written.")
 dyn_only("C15", "from_binary/from_hex over random strings from an alphabet with valid digits, invalid ASCII and a non-ASCII character (accept set, length, first bad index, capacity error) and parse(format(v)) == v; Bv on both sides of the inline limit.", "Parsing loops are driven by str::chars().enumerate(): outside Verus's front end (DESIGN 2.2); bounded/random is the planned level.")
@@ -428,6 +478,6 @@ MANIFEST_TEXT["C01"] = dict(
     note=(COVER_BVF.replace("and the Bvd implementation (symbolic word count, spare capacity included), ", "") + "Also verified: Bvd += / -= &Bvd (two-step overflowing_add/sub carry chain, symbolic word count, spare capacity). Not yet under contract: multiplication, Bv left operands, mixed Bvf/Bvd operands, native right operands (covered only by the second engine). " + TRUST_NOTE))
 MANIFEST_TEXT["C04"] = dict(
     text=("Proof: BitAnd/BitOr/BitXorAssign<&Bvf<I2,N2>> for Bvf<I1,N1> (both branches), the same three for Bvd with a &Bvd operand, Not for Bvf/&Bvf/Bvd are verified against the bit-by-bit contract with the right operand zero-extended and ignored beyond len; wf of the result is the 'no bit of b at index >= n influences later observations' clause." + DYN_NOTE),
-    note=(COVER_BVF + "Not yet under contract: &Bvd/&Bv/native right operands of Bvf, &Bvf operand of Bvd, Not for &Bvd, Bv dispatch (covered only by the second engine). " + TRUST_NOTE))
+    note=(COVER_BVF + "Also verified: Bvf op= &Bvd (operand read in chunks of the left word type through Bvd's get_int). Not yet under contract: &Bv/native right operands, &Bvf operand of Bvd, Not for &Bvd, Bv dispatch (covered only by the second engine). " + TRUST_NOTE))
 for _p in ("C05", "C06", "C07", "C08", "C16", "C18", "C19"):
     MANIFEST_TEXT[_p]["text"] += DYN_NOTE
